@@ -68,7 +68,14 @@ var c01Extras = map[string]string{
 	"d/x_rel_child": "{% extends './x_rel_base' %}{% block b %}child{{ parent() }}{% endblock %}",
 	"d/x_rel_base":  "ZERO[{% block b %}0{% endblock %}]",
 	"d/x_rel_inc":   "<{% include './x_rel_base' %}>",
+	// names that no loader has; they may be registered later in the history (by any route),
+	// after lookups of them have already failed or been ignored
+	"x_ign_inc":  "a{% include 'late_inc' ignore missing %}b{% include 'does_not_exist' ignore missing %}c",
+	"x_late_ext": "{% extends 'late_layout' %}{% block b %}late-child{% endblock %}",
 }
+
+var c01LateNames = []string{"late_inc", "does_not_exist", "late_layout", "late_inc"}
+var c01LateSrcs = []string{"L1[{{ 1 + 1 }}]", "L2{% block b %}dflt{% endblock %}", "L3[{% block b %}{% endblock %}|{% for i in [1,2] %}{{ i }}{% endfor %}]"}
 
 var c01RelBases = []string{"ONE[{% block b %}1{% endblock %}]", "TWO[{% block b %}2{% endblock %}|{{ 1 + 1 }}]", "THREE{% block b %}{% endblock %}"}
 
@@ -127,7 +134,24 @@ func runC01(c C01Case) (c01Stats, error) {
 			if !en.cacheOn {
 				continue
 			}
-			if err := en.e.RegisterString(op.Name, op.Src); err == nil {
+			// three routes to the same state: RegisterString, compiled data, RegisterTemplate
+			var err error
+			switch {
+			case op.N%3 == 1:
+				var data []byte
+				data, err = twig.SerializeCompiledTemplate(&twig.CompiledTemplate{Name: op.Name, Source: op.Src, LastModified: 1700000000, CompileTime: 1700000001})
+				if err == nil {
+					err = en.e.LoadFromCompiledData(data)
+				}
+			case op.N%3 == 2 && !strings.Contains(op.Name, "/"):
+				var tp *twig.Template
+				if tp, err = en.e.ParseTemplate(op.Src); err == nil {
+					en.e.RegisterTemplate(op.Name, tp)
+				}
+			default:
+				err = en.e.RegisterString(op.Name, op.Src)
+			}
+			if err == nil {
 				en.spec.Registered = append(append([][2]string{}, en.spec.Registered...), [2]string{op.Name, op.Src})
 				delete(en.rendered, op.Name)
 			}
@@ -280,7 +304,7 @@ func genC01(t *rapid.T) C01Case {
 		eng := rapid.IntRange(0, nw-1).Draw(t, "eng")
 		names := sortedTemplateNames(c.Worlds[eng])
 		op := C01Op{Eng: eng}
-		switch k := rapid.IntRange(0, 22).Draw(t, "opkind"); {
+		switch k := rapid.IntRange(0, 23).Draw(t, "opkind"); {
 		case k == 20:
 			// replace the parent that a relative extends / include resolves to, then render the
 			// templates that name it
@@ -297,6 +321,13 @@ func genC01(t *rapid.T) C01Case {
 				C01Op{Op: "register", Eng: eng, Name: name, Src: srcs[1]},
 				C01Op{Op: "parse", Eng: eng, Src: rapid.SampledFrom([]string{"UNRELATED{{ 7 }}", "{% if true %}other{% endif %}", srcs[2]}).Draw(t, "between")},
 				C01Op{Op: "renderHeld", Eng: eng, N: 1000003, Ctx: eng}, C01Op{Op: "render", Eng: eng, Name: name, Ctx: eng})
+			continue
+		case k == 23:
+			// a name that was looked up in vain before becomes available, by one of three routes
+			nm := rapid.SampledFrom(c01LateNames).Draw(t, "latename")
+			c.Ops = append(c.Ops, C01Op{Op: "render", Eng: eng, Name: rapid.SampledFrom([]string{"x_ign_inc", "x_late_ext", "x_missing_inc", nm}).Draw(t, "latebefore"), Ctx: eng},
+				C01Op{Op: "register", Eng: eng, Name: nm, Src: rapid.SampledFrom(c01LateSrcs).Draw(t, "latesrc"), N: rapid.IntRange(0, 2).Draw(t, "route")},
+				C01Op{Op: "render", Eng: eng, Name: rapid.SampledFrom([]string{"x_ign_inc", "x_late_ext", "x_missing_inc", nm}).Draw(t, "lateafter"), Ctx: eng})
 			continue
 		case k == 22:
 			op.Op = "render"
@@ -337,6 +368,7 @@ func genC01(t *rapid.T) C01Case {
 			}
 		case k <= 14:
 			op.Op = "register"
+			op.N = rapid.IntRange(0, 2).Draw(t, "route")
 			op.Name = fmt.Sprintf("reg%d", rapid.IntRange(0, 2).Draw(t, "regname"))
 			op.Src = rapid.SampledFrom([]string{"R1{{ 1 + 1 }}", "R2{% for i in [1,2] %}{{ i }}{% endfor %}", "R3{% include 'x_plain' %}", "R4{{ nope }}"}).Draw(t, "regsrc")
 		case k <= 15:
@@ -365,7 +397,7 @@ func genC01(t *rapid.T) C01Case {
 	return c
 }
 
-const c01Rule = "histories of 5-40 (thorough 200) operations over 1-3 engines, each holding a template set from the structural generators (control flow, inheritance with parent(), include chains, macro libraries in five call forms, apply/spaceless) plus failing templates (syntax error, unclosed tag, include of a missing template, include of a broken template, division by zero) and a template above 4096 bytes; operations: Render / RenderTo / Load+Render, repeat of the previous call, ParseTemplate+Render of valid, invalid, small and > 4096-byte sources (also of other engines' sources), RegisterString (also of a name whose old handle is still held, and of the parent behind a relative extends/include), a struct reached by value and by pointer in separate templates, SetCache, SetDebug, runtime.GC once or twice; after every render the result is compared with a pristine engine in a fresh OS process; non-trivial = the checked render is preceded by a render of the same cached template, a failing render or a GC; distinct by history"
+const c01Rule = "histories of 5-40 (thorough 200) operations over 1-3 engines, each holding a template set from the structural generators (control flow, inheritance with parent(), include chains, macro libraries in five call forms, apply/spaceless) plus failing templates (syntax error, unclosed tag, include of a missing template, include of a broken template, division by zero) and a template above 4096 bytes; operations: Render / RenderTo / Load+Render, repeat of the previous call, ParseTemplate+Render of valid, invalid, small and > 4096-byte sources (also of other engines' sources), RegisterString / LoadFromCompiledData / RegisterTemplate (also of names whose lookup failed or was ignored earlier, of a name whose old handle is still held, and of the parent behind a relative extends/include), a struct reached by value and by pointer in separate templates, SetCache, SetDebug, runtime.GC once or twice; after every render the result is compared with a pristine engine in a fresh OS process; non-trivial = the checked render is preceded by a render of the same cached template, a failing render or a GC; distinct by history"
 
 func TestC01History(t *testing.T) {
 	r := NewRec(t, "C01", c01Rule)
